@@ -27,7 +27,7 @@ def describe(tier):
             "the same alphabet, every ordered pair of them drawn from a 14-keyword menu (prefixes of one another, case variants, duplicates), and all "
             "length-3 keywords over {a,A,.}; each (list, data) is given to find_keywords and compared, as a complete list of (start, end, value, "
             "label, type) per keyword, with a reference: leftmost non-overlapping case-insensitive literal search (re.finditer on the escaped keyword) + "
-            "ASCII-alphanumeric neighbour filter + MixedCase truth table from the statement. Keywords next to / inside alphanumeric runs whose length runs over the boundary ladder (0..5000, thorough ..70000). EVERY pair of byte values (65536) immediately before and immediately after an occurrence of 3 keywords (thorough: 3-byte neighbourhoods over 48 interesting bytes). Every ordered pair of the 14-keyword menu passed as each of 11 kinds of iterable (tuple, iterator, generator, map, dict views, reversed, set, frozenset, filter, chain). A generated keyword directory (CRLF, blank lines, nested "
+            "ASCII-alphanumeric neighbour filter + MixedCase truth table from the statement. Keywords next to / inside alphanumeric runs whose length runs over the boundary ladder (0..5000, thorough ..70000). EVERY pair of byte values (65536) immediately before and immediately after an occurrence of 3 keywords (thorough: 3-byte neighbourhoods over 48 interesting bytes). The data given as one bytearray refilled in place between searches (every pair of contents <= 3 bytes x 3 keyword lists). Every ordered pair of the 14-keyword menu passed as each of 11 kinds of iterable (tuple, iterator, generator, map, dict views, reversed, set, frozenset, filter, chain). A generated keyword directory (CRLF, blank lines, nested "
             "dir, duplicates) is also loaded through build_registry and its searchers compared on the same data. states = distinct (keyword list, data) "
             "pairs, transitions = keyword occurrences examined by the reference, traces = calls compared. Non-trivial = a pair with >= 1 expected hit."
         ),
@@ -59,7 +59,7 @@ def plan(tier, seed):
     units += [("triple", tier)]
     units += [("registry", tier), ("runs", tier)]
     units += [("neigh", tier, hi) for hi in range(0, 256, 16)]
-    units += [("iterables", tier, k) for k in range(len(ITERABLE_KINDS))]
+    units += [("iterables", tier, k) for k in range(len(ITERABLE_KINDS))] + [("buffer", tier, i) for i in range(len(ALPHA))]
     units += core.interp_axis([("triple", tier), ("registry", tier), ("neigh", tier, 80)])
     return units
 
@@ -88,9 +88,9 @@ def datas(maxlen):
             yield b"".join(d)
 
 
-def check(rec, label, kws, data, fn=None):
+def check(rec, label, kws, data, fn=None, w=None):
     rec.count("evaluations")
-    w = {"kind": "kw", "label": label, "keywords": list(kws), "data": data}
+    w = w or {"kind": "kw", "label": label, "keywords": list(kws), "data": data}
     size = len(data) * 10 + sum(len(k) for k in kws)
     ok, hits = rec.guard("C17.total", w, size, fn or (lambda d: find_keywords(label, kws, d)), data)
     if not ok:
@@ -150,6 +150,22 @@ def run_unit(unit, rec):
                         rec.mark("states", 0, True)
                         check(rec, "api", [kw], data)
         rec.sample({"keywords": kws, "run_lengths": core.ladder(0, 5000)[-6:]})
+    elif kind == "buffer":
+        # data given as ONE bytearray that the caller refills in place between searches, and as memoryview-free bytes-like objects
+        first = ALPHA[unit[2]]
+        n = 0
+        kwsets = ([b"a"], [b"ab", b"A."], [b"a", b"aa", b"1"])
+        for kws in kwsets:
+            for x in (first + d for d in datas(2)):
+                buf = bytearray(x)
+                check(rec, "api", kws, bytes(x), fn=lambda d, kws=kws, buf=buf: find_keywords("api", kws, buf))
+                for y in datas(3):
+                    buf[:] = y
+                    rec.mark("states", 0, True)
+                    check(rec, "api", kws, y, fn=lambda d, kws=kws, buf=buf: find_keywords("api", kws, buf),
+                          w={"kind": "kw-buffer", "keywords": list(kws), "before": x, "data": y})
+                    n += 1
+        rec.sample({"family": "reused-bytearray", "first": first, "cases": n})
     elif kind == "iterables":
         name, make = ITERABLE_KINDS[unit[2]]
         n = 0
@@ -158,7 +174,8 @@ def run_unit(unit, rec):
                 kws = [k1, k2] if k1 != k2 else [k1]
                 for data in datas(maxlen - 2):
                     rec.mark("states", 0, True)
-                    check(rec, "file.name", kws, data, fn=lambda d, kws=kws: find_keywords("file.name", make(list(kws)), d))
+                    check(rec, "file.name", kws, data, fn=lambda d, kws=kws: find_keywords("file.name", make(list(kws)), d),
+                          w={"kind": "kw-iterable", "iterable": unit[2], "keywords": list(kws), "data": data})
                     n += 1
         rec.sample({"family": "iterable-kinds", "kind": name, "cases": n})
     elif kind == "neigh":
@@ -212,7 +229,16 @@ def run_unit(unit, rec):
 
 
 def replay(w, rec):
-    if w.get("kind") == "kw":
+    if w.get("kind") == "kw-buffer":
+        buf = bytearray(w["before"])
+        kws = w["keywords"]
+        find_keywords("api", kws, buf)
+        buf[:] = w["data"]
+        check(rec, "api", kws, w["data"], fn=lambda d: find_keywords("api", kws, buf), w=w)
+    elif w.get("kind") == "kw-iterable":
+        make = ITERABLE_KINDS[w["iterable"]][1]
+        check(rec, "file.name", w["keywords"], w["data"], fn=lambda d: find_keywords("file.name", make(list(w["keywords"])), d), w=w)
+    elif w.get("kind") == "kw":
         check(rec, w["label"], w["keywords"], w["data"])
     else:
         run_unit(("registry", "quick"), rec)
